@@ -708,9 +708,7 @@ def select__remove(self: XPathFunction, context: ta.ContextType = None) -> Itera
     if self.context is not None:
         context = self.context
 
-    position = self.get_argument(context, 1)
-    if not isinstance(position, int):
-        raise self.error('XPTY0004', 'an xs:integer required')
+    position = self.get_argument(context, 1, required=True, cls=int)
 
     for pos, result in enumerate(self[0].select(context), start=1):
         if pos != position:
